@@ -2,6 +2,8 @@ SPECIFICATION Spec
 CONSTANTS
   Fams <- QuickFams
   D_SwapDelete = TRUE
+  M_NamesComparedWhole = TRUE
+  NameW = 5
   M_BuffersPerInstance = TRUE
   M_AllDocumentKindsFiltered = TRUE
   Cap = 2
